@@ -77,6 +77,10 @@ int main(int argc, char** argv) {
                 else if (t == "translation") mb.push_back(MobilizedBody::Translation(P, XPF, body, XBM, dir));
                 else if (t == "gimbal") mb.push_back(MobilizedBody::Gimbal(P, XPF, body, XBM, dir));
                 else if (t == "bushing") mb.push_back(MobilizedBody::Bushing(P, XPF, body, XBM, dir));
+                else if (t == "spherical") { const mj::Value& o = d["opt"];
+                    mb.push_back(MobilizedBody::SphericalCoords(P, XPF, body, XBM, angleOf(o["azOff"]), o["azNeg"].num() != 0, angleOf(o["zeOff"]), o["zeNeg"].num() != 0,
+                                                                o["axis"].str() == "x" ? CoordinateAxis(0) : CoordinateAxis(2), o["rNeg"].num() != 0, dir)); }
+                else if (t == "ellipsoid" || t == "ellipsoide") mb.push_back(MobilizedBody::Ellipsoid(P, XPF, body, XBM, vec(d["opt"]["radii"]), dir));
                 else if (t == "ball" || t == "balle") mb.push_back(MobilizedBody::Ball(P, XPF, body, XBM, dir));
                 else if (t == "free" || t == "freee") mb.push_back(MobilizedBody::Free(P, XPF, body, XBM, dir));
                 else if (t == "weld") mb.push_back(MobilizedBody::Weld(P, XPF, body, XBM));
@@ -104,7 +108,8 @@ int main(int argc, char** argv) {
                     const string t = c["desc"][i]["type"].str();
                     const string kinds = t == "pin" ? "a" : t == "slider" ? "l" : t == "universal" ? "aa" : t == "cylinder" ? "al"
                         : t == "bendstretch" ? "al" : t == "planar" ? "all" : t == "translation" ? "lll" : t == "gimbal" ? "aaa"
-                        : t == "euler5" ? "aaall" : t == "bushing" ? "aaalll" : t == "ball" ? "cccc" : t == "free" ? "cccclll" : t == "balle" ? "aaa" : t == "freee" ? "aaalll" : "";
+                        : t == "euler5" ? "aaall" : t == "bushing" ? "aaalll" : t == "ball" ? "cccc" : t == "free" ? "cccclll" : t == "balle" ? "aaa" : t == "freee" ? "aaalll"
+                        : t == "spherical" ? "aal" : t == "ellipsoid" ? "cccc" : t == "ellipsoide" ? "aaa" : "";
                     if ((int)kinds.size() != mb[i + 1].getNumQ(st)) throw std::runtime_error("nq mismatch for " + t);
                     for (int k = 0; k < (int)kinds.size(); ++k) {
                         const mj::Value& qk = Q[i][k];
@@ -300,7 +305,7 @@ int main(int argc, char** argv) {
                     const mj::Value& f = c["fitTarget"][i - 1];
                     Mat33 Rm; for (int a = 0; a < 3; ++a) for (int b = 0; b < 3; ++b) Rm(a, b) = f["R"][a][b].dbl();
                     const Rotation R(Rm); const Vec3 p = vec(f["p"]), w = vec(f["w"]), v = vec(f["v"]);
-                    if (c["desc"][i - 1].has("fb") && c["desc"][i - 1]["fb"].num()) {   // fitting is not part of the user-defined route
+                    if ((c["desc"][i - 1].has("fb") && c["desc"][i - 1]["fb"].num()) || c["desc"][i - 1]["type"].str() == "spherical") {   // fitting is not part of the user-defined route; spherical coordinates are not unique
                         js << (i > 1 ? "," : "") << "{\"R1\":" << jm(R.asMat33()) << ",\"p1\":" << jv(p) << ",\"R2\":" << jm(R.asMat33()) << ",\"p2\":" << jv(p)
                            << ",\"w1\":" << jv(w) << ",\"v1\":" << jv(v) << ",\"w2\":" << jv(w) << ",\"v2\":" << jv(v) << "}";
                         continue;
